@@ -171,10 +171,16 @@ def run(prog, world, sem, rep):
             if okc:
                 # emitted whenever the assignment happens: same guard region (the message push is dominated by the assignment's block or vice versa)
                 v2, b2, e2 = sw[0]
+                # field-level assignments `<config>.reward_dispatcher_contract = ..` in the function building the message (load + modify + save form)
+                fdefs = [d0.bb for l0, ds0 in v2.be.defs_by_local.items() if v2.body.local_tys[l0].replace("&mut ", "").replace("&", "").strip().endswith("hub::Config")
+                         for d0 in ds0 if d0.path and d0.path[0][0] == "f" and d0.path[0][1] == "reward_dispatcher_contract" and d0.bb in v2.blocks]
                 caller, cbb = (v, bb)
                 while caller.parent is not None and caller is not v2:
                     caller, cbb = caller.parent
-                okc = caller is v2 and (v2.be.cfg.dominates(cbb, b2) or v2.be.cfg.dominates(b2, cbb))
+                if fdefs:
+                    okc = caller is v2 and all(v2.be.cfg.dominates(db, b2) or v2.be.cfg.dominates(b2, db) for db in fdefs)
+                else:
+                    okc = caller is v2 and (v2.be.cfg.dominates(cbb, b2) or v2.be.cfg.dominates(b2, cbb))
                 # and the response actually carries it
                 r2 = world.ret_expr(hh.body)
                 okc = okc and bool(find(hh.resolve(r2), lambda y: y.op == "adt" and y.info[0].endswith("DistributionMsg") and y.info[1] == "SetWithdrawAddress") or
